@@ -36,6 +36,7 @@ func (p *pooledSliceBuffers[T]) poolIndex(neededSize, maxSize int) int {
 }
 
 func (p *pooledSliceBuffers[T]) get(neededSize, maxSize int) ([]T, *[]T) {
+	verifPoint(verifPtPoolGet)
 	idx := p.poolIndex(neededSize, maxSize)
 	if idx < 0 {
 		return make([]T, neededSize), nil
@@ -51,6 +52,7 @@ func (p *pooledSliceBuffers[T]) get(neededSize, maxSize int) ([]T, *[]T) {
 }
 
 func (p *pooledSliceBuffers[T]) put(bufp *[]T) {
+	verifPoint(verifPtPoolPut)
 	idx := p.poolIndex(cap(*bufp), -1)
 	if idx < 0 || cap(*bufp) != p.sizes[idx] {
 		return
